@@ -22,6 +22,9 @@
 //!       sibling directories d1/ d2/ d3/ holding files of the same relative names; same text along a chain
 //!   W   fake+real FS: textual form of the include line and of the file end: blanks/tabs before (and, DON'T-CARE, after)
 //!       the path, LF / CRLF, blank lines between items or none, last line of every file terminated or not
+//!   K   fake+real FS: scale — one wildcard matching 1, 2, 5, 31, 32, 33, 64, 200 files under 5 naming schemes (padded,
+//!       class, `?`, unpadded digits `2` < `10`?, mixed case), include chains of depth 1..40 under 4 link styles; own ledger
+//!       of n+1 entries in which entry i only balances after exactly entries 0..i-1
 //!   N   fake FS: an include that matches nothing (every 1-line tree x style; nested 2-line shapes x uniform style)
 //!   C   fake FS: recursive include (chain depth k, back edge to ancestor j, chain style, back-edge spelling)
 //!   X   fake FS: the same file included twice through two different spellings (sequence is DON'T-CARE)
@@ -47,8 +50,8 @@ use crate::oka;
 pub const DEF: CheckDef = CheckDef {
     id: "C11",
     run,
-    technique: "bounded-exhaustive enumeration of include trees: one order-sensitive 6-entry ledger cut at every subset of its 5 entry boundaries and hung into every include tree (own entries may surround include lines; one include line may glob several sibling files) within depth/line bounds x every assignment of 10 path styles to the include lines, plus 8 further styles for the remaining glob metacharacters ([0-9], [ab], [!x], ? in the same and in a sub-directory); the real Loader (FakeFileSystem and real file system) and the real report/CLI code run on every tree and are compared with the unsplit ledger",
-    rule: "case = (tree shape, path style per include line[, file system, creation order, root spelling]). quick: depth <= 2 and <= 2 include lines x all style assignments, plus all 48 097 shapes of depth <= 2 x 4 uniform style families; thorough: depth <= 3 and <= 3 lines x all style assignments, plus all 383 084 shapes of depth <= 3 x 10 uniform style families. Styles: same dir, sub-dir, ../, ./x/../y, absolute, glob prefix*, glob *suffix, glob sub/*.ledger, glob ../*suffix, glob over several directories */m.dat; family G adds rN_[0-9].dat, sN_[ab..].dat, [!x]_nN.dat, ?_qN.dat (same dir and mN/ sub-dir, the first three without any * or ?) with siblings the class must not match: quick every 1-line tree x 8 and every 2-line shape x 8 uniform, thorough every <=2-line shape x every assignment over all 18 styles using one of them; a dot-file (dot-directory) holding an unbalanced transaction sits next to every glob; FakeFileSystem returns glob matches reverse-sorted; on the real FS files are created in two scrambled orders. family T: every twin shape (root -> 2 or 3 year files d1/year.dat.. by literal lines or one glob d*/year.dat, each with own entries around ONE include line over leaf files) x 9 include texts that are IDENTICAL in every directory (part.dat, ./part.dat, ./x/../part.dat, sub/part.dat, *_p.dat, p_[0-9].dat, ?_q.dat, sub/*.ledger, sub/p_[0-9].dat), 3 538 shapes / 23 954 trees on the fake FS, 1 720 (thorough 23 954) on the real FS, plus chains whose every line says the same sub-directory text. family W: every 1-line tree x 3 styles x 125 textual forms and every 2-line shape x 17 forms ({blank, blanks, tab before the path} x {LF, CRLF on include lines, CRLF everywhere} x {blank line after every item, none} x {file end as generated, one line end, last line unterminated}; blanks after the path are DON'T-CARE), 76 059 trees on the fake FS and 1 080 on the real FS. Further families: include matching nothing (must fail), recursive include (must fail, not crash), identical include twice and diamond (must not be reported as recursive), two spellings of one file (DON'T-CARE). states = trees executed, transitions = loader/report/CLI runs compared with the unsplit ledger",
+    technique: "bounded-exhaustive enumeration of include trees: one order-sensitive 6-entry ledger cut at every subset of its 5 entry boundaries and hung into every include tree (own entries may surround include lines; one include line may glob several sibling files) within depth/line bounds x every assignment of 10 path styles to the include lines, plus 12 further styles for the remaining glob metacharacters ([0-9], [ab], [!x], ? in the same and in a sub-directory) and for file-name value classes (letter case, upper-case names, dotted names); the real Loader (FakeFileSystem and real file system) and the real report/CLI code run on every tree and are compared with the unsplit ledger",
+    rule: "case = (tree shape, path style per include line[, file system, creation order, root spelling]). quick: depth <= 2 and <= 2 include lines x all style assignments, plus all 48 097 shapes of depth <= 2 x 4 uniform style families; thorough: depth <= 3 and <= 3 lines x all style assignments, plus all 383 084 shapes of depth <= 3 x 10 uniform style families. Styles: same dir, sub-dir, ../, ./x/../y, absolute, glob prefix*, glob *suffix, glob sub/*.ledger, glob ../*suffix, glob over several directories */m.dat; family G adds rN_[0-9].dat, sN_[ab..].dat, [!x]_nN.dat, ?_qN.dat (same dir and mN/ sub-dir, the first three without any * or ?) with siblings the class must not match: quick every 1-line tree x 8 and every 2-line shape x 8 uniform, thorough every <=2-line shape x every assignment over all 18 styles using one of them; a dot-file (dot-directory) holding an unbalanced transaction sits next to every glob; FakeFileSystem returns glob matches reverse-sorted; on the real FS files are created in two scrambled orders. family T: every twin shape (root -> 2 or 3 year files d1/year.dat.. by literal lines or one glob d*/year.dat, each with own entries around ONE include line over leaf files) x 9 include texts that are IDENTICAL in every directory (part.dat, ./part.dat, ./x/../part.dat, sub/part.dat, *_p.dat, p_[0-9].dat, ?_q.dat, sub/*.ledger, sub/p_[0-9].dat), 3 538 shapes / 23 954 trees on the fake FS, 1 720 (thorough 23 954) on the real FS, plus chains whose every line says the same sub-directory text. family W: every 1-line tree x 3 styles x 125 textual forms and every 2-line shape x 17 forms ({blank, blanks, tab before the path} x {LF, CRLF on include lines, CRLF everywhere} x {blank line after every item, none} x {file end as generated, one line end, last line unterminated}; blanks after the path are DON'T-CARE), 76 059 trees on the fake FS and 1 080 on the real FS. family K (scale): one wildcard matching 1/2/5/31/32/33/64/200 files x 5 naming schemes (zero-padded by *, by [0-9][0-9][0-9], by ???; unpadded digits; alternating upper/lower-case names — byte-wise order expected, numeric-aware or case-insensitive collation DON'T-CARE) and include chains of every depth 1..40 x 4 link styles, on both file systems, over a ledger whose i-th entry only balances after exactly its predecessors; styles for letter case (v-*.dat next to V-0.dat, U_*.DAT next to u_a.dat, literal y.dat next to Y.dat) and names full of dots join the glob-metacharacter family. Further families: include matching nothing (must fail), recursive include (must fail, not crash), identical include twice and diamond (must not be reported as recursive), two spellings of one file (DON'T-CARE). states = trees executed, transitions = loader/report/CLI runs compared with the unsplit ledger",
     assumptions: &[
         "entry identity = PartialEq of syntax::plain::LedgerEntry against the parsed unsplit ledger; report identity = bytes of the balance/register lines (same formatting code as cli BalanceCmd/RegisterCmd on FakeFileSystem, the real CLI in-process on the real file system)",
         "file names inside one glob are single-digit keys, so every reasonable notion of 'sorted path order' agrees; component-wise vs byte-wise order of multi-directory matches, case folding, symlinks and non-UTF-8 names are not exercised",
@@ -106,6 +109,11 @@ enum Style {
     SubClsSet,
     SubClsNeg,
     SubQmark,
+    // names: letter case, upper-case names, a literal next to a name differing only in case, names full of dots
+    CaseGlob,
+    UpperGlob,
+    CaseLit,
+    DotName,
     // labels for the lines of family T (identical include text in sibling directories); never tallied per style
     TwinLit,
     TwinGlob,
@@ -116,17 +124,26 @@ const NCORE: usize = 10;
 const ALL: [Style; NCORE] = [Same, Sub, Up, DotMix, Abs, GlobPrefix, GlobStar, GlobSub, GlobUp, GlobDirs];
 const GLOBS: [Style; 5] = [GlobPrefix, GlobStar, GlobSub, GlobUp, GlobDirs];
 /// `[0-9]`, `[ab]`, `[!x]`, `?` in the same directory and in a sub-directory
-const META: [Style; 8] = [ClsRange, ClsSet, ClsNeg, Qmark, SubClsRange, SubClsSet, SubClsNeg, SubQmark];
-const NSTYLES: usize = 18;
-const EVERY: [Style; NSTYLES] = [Same, Sub, Up, DotMix, Abs, GlobPrefix, GlobStar, GlobSub, GlobUp, GlobDirs, ClsRange, ClsSet, ClsNeg, Qmark, SubClsRange, SubClsSet, SubClsNeg, SubQmark];
-const EVERY_GLOB: [Style; 13] = [GlobPrefix, GlobStar, GlobSub, GlobUp, GlobDirs, ClsRange, ClsSet, ClsNeg, Qmark, SubClsRange, SubClsSet, SubClsNeg, SubQmark];
+const META: [Style; 12] = [ClsRange, ClsSet, ClsNeg, Qmark, SubClsRange, SubClsSet, SubClsNeg, SubQmark, CaseGlob, UpperGlob, CaseLit, DotName];
+const META_GLOB: [Style; 11] = [ClsRange, ClsSet, ClsNeg, Qmark, SubClsRange, SubClsSet, SubClsNeg, SubQmark, CaseGlob, UpperGlob, DotName];
+const NSTYLES: usize = 22;
+const EVERY: [Style; NSTYLES] = [Same, Sub, Up, DotMix, Abs, GlobPrefix, GlobStar, GlobSub, GlobUp, GlobDirs, ClsRange, ClsSet, ClsNeg, Qmark, SubClsRange, SubClsSet, SubClsNeg, SubQmark, CaseGlob, UpperGlob, CaseLit, DotName];
+const EVERY_GLOB: [Style; 16] = [GlobPrefix, GlobStar, GlobSub, GlobUp, GlobDirs, ClsRange, ClsSet, ClsNeg, Qmark, SubClsRange, SubClsSet, SubClsNeg, SubQmark, CaseGlob, UpperGlob, DotName];
 
 impl Style {
     fn is_glob(self) -> bool {
-        !matches!(self, Same | Sub | Up | DotMix | Abs | TwinLit)
+        !matches!(self, Same | Sub | Up | DotMix | Abs | TwinLit | CaseLit)
     }
     fn is_meta(self) -> bool {
         META.contains(&self)
+    }
+    /// the style a multi-child line takes in the uniform family of an extra style
+    fn for_group(self) -> Style {
+        if self == CaseLit {
+            CaseGlob
+        } else {
+            self
+        }
     }
     fn idx(self) -> usize {
         EVERY.iter().position(|s| *s == self).unwrap()
@@ -537,6 +554,34 @@ impl<'a> Builder<'a> {
                             let decoys = decoys.into_iter().map(|d| format!("{}/{}", cdir, d)).collect();
                             (cdir, format!("{}{}", pre, pat), names, decoys)
                         }
+                        // letter case: the literal part of the pattern in lower case, siblings that differ from it only in case
+                        CaseGlob => (
+                            dir.to_string(),
+                            format!("v{}-*.dat", lid),
+                            (0..children.len()).map(|k| format!("v{}-{}.dat", lid, key(k))).collect(),
+                            vec![format!("{}/V{}-0.dat", dir, lid), format!("{}/v{}-9.DAT", dir, lid)],
+                        ),
+                        // upper-case names, lower-case look-alikes next to them
+                        UpperGlob => (
+                            dir.to_string(),
+                            format!("U{}_*.DAT", lid),
+                            (0..children.len()).map(|k| format!("U{}_{}.DAT", lid, (b'A' + k as u8) as char)).collect(),
+                            vec![format!("{}/u{}_a.dat", dir, lid), format!("{}/U{}_Z.dat", dir, lid)],
+                        ),
+                        // a literal include next to a file whose name differs only in case
+                        CaseLit => {
+                            let y = if kill { lit.clone() } else { format!("y{}.dat", first_fid) };
+                            let mut up = y.clone();
+                            up[..1].make_ascii_uppercase();
+                            (dir.to_string(), y.clone(), vec![y], vec![format!("{}/{}", dir, up)])
+                        }
+                        // names full of dots; the wildcard starts the name
+                        DotName => (
+                            dir.to_string(),
+                            format!("*.n{}.dat", lid),
+                            (0..children.len()).map(|k| format!("{}.x.n{}.dat", key(k), lid)).collect(),
+                            vec![format!("{}/.0.x.n{}.dat", dir, lid), format!("{}/0.x.n{}.dat.bak", dir, lid)],
+                        ),
                         TwinLit | TwinGlob => panic!("harness bug: family-T label used as a layout style"),
                     };
                     content.push_str(&self.fmt.include_line(&text));
@@ -605,6 +650,25 @@ fn render(l: &Laid) -> String {
     }
     for d in &l.dirs {
         s.push_str(&format!("=== {}/ (directory) ===\n", d));
+    }
+    s
+}
+
+/// `render` for big trees: the first 6 and the last 2 files only
+fn render_short(l: &Laid) -> String {
+    if l.files.len() <= 10 {
+        return render(l);
+    }
+    let mut s = String::new();
+    for (p, c) in l.files.iter().take(6) {
+        s.push_str(&format!("=== {} ===\n{}", p, c));
+    }
+    s.push_str(&format!("... {} more files of the same kind ...\n", l.files.len() - 8));
+    for (p, c) in l.files.iter().skip(l.files.len() - 2) {
+        s.push_str(&format!("=== {} ===\n{}", p, c));
+    }
+    for p in l.hidden.keys() {
+        s.push_str(&format!("=== {} (decoy, must not be loaded) ===\n", p));
     }
     s
 }
@@ -1295,6 +1359,256 @@ fn judge_repeat(fs: &str, l: &Laid, twice: &[(usize, u8)], once: &[(usize, u8)],
 }
 
 // ------------------------------------------------------------------------------------------
+// Family K: scale — one wildcard matching many files, long include chains, names whose order needs care
+
+/// Ledger of n+1 entries in which entry i (i >= 1) only balances when exactly the entries 0..i-1 were booked before it:
+/// `Expenses:E  i CHF` against the assignment `Assets:Bank = 1000 - i(i+1)/2 CHF`.
+fn k_entries(n: usize) -> Vec<String> {
+    let mut v = vec!["2024/01/01 head\n    Assets:Bank          1000 CHF\n    Equity:Opening\n\n".to_string()];
+    for i in 1..=n as i64 {
+        v.push(format!("2024/02/01 day {}\n    Expenses:E           {} CHF\n    Assets:Bank          = {} CHF\n\n", i, i, 1000 - i * (i + 1) / 2));
+    }
+    v
+}
+
+#[derive(Clone, Copy, Debug, PartialEq, Eq)]
+enum Naming {
+    /// `daily/d007.ledger` by `daily/*.ledger` (dot-file decoy)
+    Padded,
+    /// `d007.dat` by `d[0-9][0-9][0-9].dat` (decoy `dxxx.dat`)
+    PaddedClass,
+    /// `daily/d007.ledger` by `daily/d???.ledger` (decoy `daily/d0007.ledger`)
+    PaddedQmark,
+    /// `daily/1.ledger`, `daily/10.ledger`, `daily/2.ledger` ...: byte-wise order is not numeric order
+    Digits,
+    /// `daily/F000.ledger`, `daily/f000.ledger`, ...: byte-wise order puts all upper-case names first
+    MixedCase,
+}
+const NAMINGS: [Naming; 5] = [Naming::Padded, Naming::PaddedClass, Naming::PaddedQmark, Naming::Digits, Naming::MixedCase];
+const WIDTHS: [usize; 8] = [1, 2, 5, 31, 32, 33, 64, 200];
+
+struct KCase {
+    l: Laid,
+    texts: Vec<String>,
+    /// other entry orders that some notion of "sorted" would give (numeric-aware, case-insensitive): DON'T-CARE if delivered
+    alt_orders: Vec<Vec<usize>>,
+}
+
+fn natural_key(s: &str) -> (u64, String) {
+    let digits: String = s.chars().filter(|c| c.is_ascii_digit()).collect();
+    (digits.parse().unwrap_or(0), s.to_string())
+}
+
+/// root = entry 0, one include line, entry n+1; member j holds entry j
+fn layout_wide(base: &str, n: usize, naming: Naming) -> KCase {
+    let texts = k_entries(n + 1);
+    let rd = root_dir(base);
+    let root = format!("{}/main.ledger", rd);
+    let (pattern, mut names, decoys): (String, Vec<String>, Vec<String>) = match naming {
+        Naming::Padded => ("daily/*.ledger".into(), (1..=n).map(|j| format!("daily/d{:03}.ledger", j)).collect(), vec!["daily/.d000.ledger".into()]),
+        Naming::PaddedClass => ("d[0-9][0-9][0-9].dat".into(), (1..=n).map(|j| format!("d{:03}.dat", j)).collect(), vec!["dxxx.dat".into()]),
+        Naming::PaddedQmark => ("daily/d???.ledger".into(), (1..=n).map(|j| format!("daily/d{:03}.ledger", j)).collect(), vec!["daily/d0007.ledger".into(), "daily/.d00.ledger".into()]),
+        Naming::Digits => ("daily/*.ledger".into(), (1..=n).map(|j| format!("daily/{}.ledger", j)).collect(), vec!["daily/.0.ledger".into()]),
+        Naming::MixedCase => ("daily/*.ledger".into(), (0..n).map(|j| format!("daily/{}{:03}.ledger", if j % 2 == 0 { "F" } else { "f" }, j / 2)).collect(), vec!["daily/.F000.ledger".into()]),
+    };
+    // the j-th entry goes into the j-th name in byte-wise order
+    names.sort();
+    let mut l = Laid { root: root.clone(), files: vec![], hidden: BTreeMap::new(), dirs: BTreeSet::new(), expect: vec![], lines: vec![], groups: vec![], in_group: BTreeSet::new(), nomatch: None };
+    l.files.push((root, format!("{}include {}\n\n{}", texts[0], pattern, texts[n + 1])));
+    l.expect.push((0, 0));
+    for (j, nm) in names.iter().enumerate() {
+        l.files.push((format!("{}/{}", rd, nm), texts[j + 1].clone()));
+        l.expect.push((j + 1, j + 1));
+    }
+    l.expect.push((0, n + 1));
+    for d in &decoys {
+        l.hidden.insert(format!("{}/{}", rd, d), HIDDEN.to_string());
+    }
+    l.lines.push(Line { style: TwinGlob, text: pattern, hidden: decoys.iter().map(|d| format!("{}/{}", rd, d)).collect(), multi: n > 1 });
+    // alternative collations of the same names
+    let mut alt_orders = vec![];
+    let mut by = |keyf: &dyn Fn(&str) -> (u64, String)| {
+        let mut idx: Vec<usize> = (0..n).collect();
+        idx.sort_by_key(|i| keyf(&names[*i]));
+        let mut order = vec![0usize];
+        order.extend(idx.iter().map(|i| i + 1));
+        order.push(n + 1);
+        if order != (0..n + 2).collect::<Vec<usize>>() {
+            alt_orders.push(order);
+        }
+    };
+    by(&natural_key);
+    by(&|s: &str| (0, s.to_ascii_lowercase()));
+    KCase { l, texts, alt_orders }
+}
+
+#[derive(Clone, Copy, Debug, PartialEq, Eq)]
+enum Link {
+    /// `c<i>.dat`, all in one directory
+    SameDir,
+    /// the same text `s/c.dat` on every level, one directory deeper each time
+    SubSameText,
+    /// alternately `s<i>/c<i>.dat` and `../c<i>.dat`
+    SubThenUp,
+    /// `s/*.dat` on every level (dot-file decoy on every level)
+    SubGlob,
+}
+const LINKS: [Link; 4] = [Link::SameDir, Link::SubSameText, Link::SubThenUp, Link::SubGlob];
+const MAX_CHAIN: usize = 40;
+
+/// file i = entry i, include of file i+1, entry 2d-i; file d = entry d
+fn layout_deep(base: &str, d: usize, link: Link) -> KCase {
+    let texts = k_entries(2 * d);
+    let rd = root_dir(base);
+    let mut l = Laid { root: format!("{}/main.ledger", rd), files: vec![], hidden: BTreeMap::new(), dirs: BTreeSet::new(), expect: vec![], lines: vec![], groups: vec![], in_group: BTreeSet::new(), nomatch: None };
+    let mut paths = vec![l.root.clone()];
+    let mut incs = vec![];
+    let mut dir = rd.clone();
+    for i in 1..=d {
+        let (text, cdir, name): (String, String, String) = match link {
+            Link::SameDir => (format!("c{}.dat", i), dir.clone(), format!("c{}.dat", i)),
+            Link::SubSameText => ("s/c.dat".into(), format!("{}/s", dir), "c.dat".into()),
+            Link::SubThenUp => {
+                if i % 2 == 1 {
+                    (format!("s{}/c{}.dat", i, i), format!("{}/s{}", dir, i), format!("c{}.dat", i))
+                } else {
+                    (format!("../c{}.dat", i), parent_dir(&dir), format!("c{}.dat", i))
+                }
+            }
+            Link::SubGlob => {
+                l.hidden.insert(format!("{}/s/.0.dat", dir), HIDDEN.to_string());
+                ("s/*.dat".into(), format!("{}/s", dir), "1.dat".into())
+            }
+        };
+        l.lines.push(Line { style: if link == Link::SubGlob { TwinGlob } else { TwinLit }, text: text.clone(), hidden: vec![], multi: false });
+        incs.push(text);
+        paths.push(format!("{}/{}", cdir, name));
+        dir = cdir;
+    }
+    for i in 0..=d {
+        let content = if i == d { texts[d].clone() } else { format!("{}include {}\n\n{}", texts[i], incs[i], texts[2 * d - i]) };
+        l.files.push((paths[i].clone(), content));
+    }
+    for i in 0..=d {
+        l.expect.push((i, i));
+    }
+    for i in (0..d).rev() {
+        l.expect.push((i, 2 * d - i));
+    }
+    KCase { l, texts, alt_orders: vec![] }
+}
+
+const K_HID: usize = usize::MAX - 1;
+const K_INC: usize = usize::MAX - 2;
+const K_OTHER: usize = usize::MAX - 3;
+
+fn collect_k<F: load::FileSystem>(known: &[syntax::plain::LedgerEntry<'static>], hid: &syntax::plain::LedgerEntry<'static>, loader: &load::Loader<F>) -> (Vec<(PathBuf, usize)>, Result<(), load::LoadError>) {
+    let mut seen = vec![];
+    let r = loader.load(|path: &Path, _pctx: &parse::ParsedContext<'_>, entry: &syntax::plain::LedgerEntry<'_>| -> Result<(), load::LoadError> {
+        // see `collect` for the lifetime unification
+        let e: &syntax::plain::LedgerEntry<'static> = unsafe { std::mem::transmute::<&syntax::plain::LedgerEntry<'_>, &syntax::plain::LedgerEntry<'static>>(entry) };
+        let code = if matches!(entry, syntax::LedgerEntry::Include(_)) {
+            K_INC
+        } else if e == hid {
+            K_HID
+        } else {
+            known.iter().position(|k| k == e).unwrap_or(K_OTHER)
+        };
+        seen.push((path.to_path_buf(), code));
+        Ok(())
+    });
+    (seen, r)
+}
+
+fn scale_bucket(n: usize) -> &'static str {
+    match n {
+        0..=1 => "1",
+        2..=9 => "2-9",
+        10..=99 => "10-99",
+        _ => "100+",
+    }
+}
+
+/// `what` = "one-glob" | "chain"; `n` = number of files matched / chain depth
+fn judge_k(fs: &str, what: &str, n: usize, k: &KCase, b: &Baseline, env: Option<&RealEnv>) -> Outcome {
+    let unsplit: String = k.texts.concat();
+    let known = parse_static(unsplit.clone());
+    assert!(known.len() == k.texts.len(), "harness bug: scale ledger does not parse as its entries");
+    let hid = &b.known.entries[HID as usize];
+    let tag = format!("{}/{}-{}", fs, what, scale_bucket(n));
+    let (seen, res, norm): (Vec<(PathBuf, usize)>, Result<(), load::LoadError>, Box<dyn Fn(&Path) -> String>) = match env {
+        None => {
+            let (s, r) = collect_k(&known, hid, &oka::fake_loader(&fake_files(&k.l), &k.l.root));
+            (s, r, Box::new(|p: &Path| lexical_norm(p)))
+        }
+        Some(_) => {
+            let (s, r) = collect_k(&known, hid, &load::new_loader(PathBuf::from(&k.l.root)));
+            (s, r, Box::new(real_norm))
+        }
+    };
+    let detail = || {
+        let got: Vec<String> = seen.iter().map(|(p, c)| format!("{}:{}", p.file_name().map(|x| x.to_string_lossy().to_string()).unwrap_or_default(), match *c { K_HID => "DECOY".to_string(), K_INC => "INCLUDE".to_string(), K_OTHER => "?".to_string(), i => i.to_string() })).collect();
+        format!("{} = {}\ndelivered (file:entry): {}\nloader result: {:?}", what, n, got.join(" "), res)
+    };
+    if let Err(e) = &res {
+        return Outcome::violation(format!("split-load-fails/{}/{}", tag, load_err_variant(e)), detail());
+    }
+    if seen.iter().any(|e| e.1 == K_INC) {
+        return Outcome::violation(format!("include-line-delivered/{}", tag), detail());
+    }
+    if let Some((p, _)) = seen.iter().find(|e| e.1 == K_HID) {
+        let dot = norm(p).rsplit('/').take(2).any(|c| c.starts_with('.'));
+        return Outcome::violation(format!("{}/{}", if dot { "dot-file-loaded" } else { "file-outside-the-pattern-loaded" }, tag), detail());
+    }
+    let got: Vec<usize> = seen.iter().map(|e| e.1).collect();
+    let want: Vec<usize> = k.l.expect.iter().map(|e| e.1).collect();
+    if got != want {
+        if k.alt_orders.iter().any(|o| *o == got) {
+            return Outcome::dont_care(format!("scale/{}/glob-members-in-another-collation", tag));
+        }
+        let mut a = got.clone();
+        let mut c = want.clone();
+        a.sort();
+        c.sort();
+        return Outcome::violation(format!("{}/{}", if a == c { "order-changed" } else { "entries-lost-or-duplicated" }, tag), detail());
+    }
+    for (i, (p, _)) in seen.iter().enumerate() {
+        if norm(p) != k.l.files[k.l.expect[i].0].0 {
+            return Outcome::violation(format!("entry-attributed-to-wrong-file/{}", tag), detail());
+        }
+    }
+    // reports
+    match env {
+        None => {
+            let base = fake_reports(&[("/v/c11/main.ledger", unsplit.as_str())], "/v/c11/main.ledger");
+            if base.is_err() {
+                panic!("harness bug: the unsplit scale ledger is rejected: {:?}", base);
+            }
+            let split = fake_reports(&fake_files(&k.l), &k.l.root);
+            if split != base {
+                return Outcome::violation(format!("report-differs/{}", tag), format!("--- unsplit ---\n{:?}\n--- split ---\n{:?}", base, split));
+            }
+        }
+        Some(env) => {
+            let up = format!("{}/unsplit-k/main.ledger", env.scratch);
+            std::fs::create_dir_all(parent_dir(&up)).expect("mkdir");
+            std::fs::write(&up, &unsplit).expect("write");
+            let base = cli_outputs(&up);
+            if !base.iter().all(|o| o.starts_with("EXIT 0")) {
+                panic!("harness bug: CLI fails on the unsplit scale ledger: {:?}", base);
+            }
+            let outs = cli_outputs(&k.l.root);
+            for (i, o) in outs.iter().enumerate() {
+                if *o != base[i] {
+                    return Outcome::violation(format!("cli-differs/{}/{}", tag, CLI_CMDS[i]), format!("--- unsplit ---\n{}--- split ---\n{}", base[i], o));
+                }
+            }
+        }
+    }
+    Outcome::pass(format!("scale/{}/same", tag))
+}
+
+// ------------------------------------------------------------------------------------------
 // Real file system
 
 struct RealEnv {
@@ -1597,7 +1911,10 @@ fn run_inner(ctx: &mut Ctx) {
             });
         } else if *lines == 2 || thorough {
             for u in META {
-                let st = vec![u; multi.len()];
+                if u == CaseLit && multi.iter().all(|m| *m) {
+                    continue; // would repeat the CaseGlob assignment
+                }
+                let st: Vec<Style> = multi.iter().map(|m| if *m { u.for_group() } else { u }).collect();
                 one(&st, ctx, &mut fake_tally);
             }
         }
@@ -1607,7 +1924,7 @@ fn run_inner(ctx: &mut Ctx) {
     let mut n_gn = 0u64;
     for (shape, _) in all_shapes.iter().filter(|s| s.1 == 1) {
         let multi = line_multi(shape);
-        for_each_styles_in(&multi, &META, &META, |st| {
+        for_each_styles_in(&multi, &META, &META_GLOB, |st| {
             n_gn += 1;
             if !ctx.next_is_mine() {
                 ctx.skip_cases(1);
@@ -1658,6 +1975,32 @@ fn run_inner(ctx: &mut Ctx) {
     }
     ctx.fact("family_T_trees", n_t);
     fake_tally.emit(ctx, "fake");
+
+    // ---- K: scale (fake FS): one wildcard matching 1..200 files x 5 naming schemes; include chains of depth 1..40 x 4 links
+    let mut n_k = 0u64;
+    for n in WIDTHS {
+        for naming in NAMINGS {
+            n_k += 1;
+            if !ctx.next_is_mine() {
+                ctx.skip_cases(1);
+                continue;
+            }
+            let k = layout_wide(FAKE_BASE, n, naming);
+            ctx.case(|| format!("[K fake FS] one wildcard matching {} files, names {:?}\n{}", n, naming, render_short(&k.l)), || judge_k("fake", "one-glob", n, &k, &b, None));
+        }
+    }
+    for d in 1..=MAX_CHAIN {
+        for link in LINKS {
+            n_k += 1;
+            if !ctx.next_is_mine() {
+                ctx.skip_cases(1);
+                continue;
+            }
+            let k = layout_deep(FAKE_BASE, d, link);
+            ctx.case(|| format!("[K fake FS] include chain of depth {}, links {:?}\n{}", d, link, render_short(&k.l)), || judge_k("fake", "chain", d, &k, &b, None));
+        }
+    }
+    ctx.fact("family_K_cases", n_k);
 
     // ---- W: textual form of the include line and of the file end (fake FS) ----
     //  W1: every 1-line tree x 3 styles (literal, sub/*.ledger, class glob) x 125 forms:
@@ -1891,6 +2234,45 @@ fn run_inner(ctx: &mut Ctx) {
         }
     }
     let _ = (grp3, grp3_scrambled);
+    // RK: scale on the real FS (loader + CLI)
+    let mut n_rk = 0u64;
+    for n in WIDTHS {
+        for naming in NAMINGS {
+            for order in 0..2 {
+                n_rk += 1;
+                if !ctx.next_is_mine() {
+                    ctx.skip_cases(1);
+                    continue;
+                }
+                let k = layout_wide(&real_base, n, naming);
+                ctx.case(
+                    || format!("[RK real FS, creation order {}] one wildcard matching {} files, names {:?}\n{}", order, n, naming, render_short(&k.l)).replace(&env.scratch, "<scratch>"),
+                    || {
+                        materialise(&k.l, &real_base, order);
+                        judge_k("real", "one-glob", n, &k, &b, Some(&env))
+                    },
+                );
+            }
+        }
+    }
+    for d in 1..=MAX_CHAIN {
+        for link in LINKS {
+            n_rk += 1;
+            if !ctx.next_is_mine() {
+                ctx.skip_cases(1);
+                continue;
+            }
+            let k = layout_deep(&real_base, d, link);
+            ctx.case(
+                || format!("[RK real FS] include chain of depth {}, links {:?}\n{}", d, link, render_short(&k.l)).replace(&env.scratch, "<scratch>"),
+                || {
+                    materialise(&k.l, &real_base, 0);
+                    judge_k("real", "chain", d, &k, &b, Some(&env))
+                },
+            );
+        }
+    }
+    ctx.fact("family_RK_cases", n_rk);
     // RW: textual forms on the real FS: every 1-line tree x literal style (prefix glob for groups) x
     // {LF, CRLF on include lines, CRLF} x {as generated, one line end, unterminated} without blank lines between items
     let mut n_rw = 0u64;
@@ -1961,7 +2343,11 @@ fn run_inner(ctx: &mut Ctx) {
         let multi = line_multi(shape);
         let cuts = cut_mask(shape);
         for u in META {
-            let st = vec![u; *lines];
+            if u == CaseLit && multi.iter().all(|m| *m) {
+                continue;
+            }
+            let st: Vec<Style> = multi.iter().map(|m| if *m { u.for_group() } else { u }).collect();
+            let _ = lines;
             for order in 0..2 {
                 n_r += 1;
                 real_tally.add(depth, &st, cuts);
